@@ -145,6 +145,8 @@ def run_one(s):
             r = watched(lambda: t | u)
         elif a == "repeat":
             r = watched(lambda: t.repeat(op["n"]))
+        elif a == "repeat2":
+            r = watched(lambda: t.repeat(op["n"] // 10, op["n"] % 10))
         elif a == "to":           # dtype conversion in place (Points.to returns the same object)
             r = watched(lambda: t.to(torch.float32 if op["n"] == 32 else torch.float64))
         elif a == "unsq":
